@@ -229,9 +229,28 @@ def run(ctx):
     ctx.log("cases generated, model paths traced")
     diffs = ctx.eseq(exe, drv, cases)
     ctx.log("E-SEQ done: %d cases, %d differences" % (len(cases), len(diffs)))
+    # cases in which the implementation itself reported an oracle failure first, then crashes, then plain divergences
+    diffs.sort(key=lambda d: (0 if "!ORACLE" in d[3] else 1 if "<no-output" in d[3] else 2, d[0]))
     for (ci, li, op, a, b) in diffs:
+        if dist["oracle_failures"] >= 4 or dist["divergences"] >= 3:
+            break
         case = cases[ci]
-        oracle = "!ORACLE" in a or "<no-output" in a
+        # Re-run the case on its own: a sanitizer abort in an earlier case of the same batch makes
+        # every later case of that batch look different (no output at all).
+        io, rc, err = ctx.run_lines(exe, ["reset"] + case)
+        mo2, _, _ = ctx.run_lines(drv, ["reset"] + case)
+        first = next((k for k in range(len(mo2)) if k >= len(io) or io[k] != mo2[k]), None)
+        if first is None and rc == 0:
+            continue
+        if first is None:
+            first = len(io)
+        li = first - 1
+        a = io[first] if first < len(io) else "<no-output: rc=%s>" % rc
+        b = mo2[first] if first < len(mo2) else "<none>"
+        op = (["reset"] + case)[first] if first <= len(case) else "<end>"
+        # an oracle failure anywhere in the case makes it a failing input for the real code, even
+        # when model and implementation part ways earlier
+        oracle = rc != 0 or any("!ORACLE" in l for l in io)
 
         def still(cand, want_oracle=oracle):
             io, rc, err = ctx.run_lines(exe, ["reset"] + cand)
@@ -239,7 +258,7 @@ def run(ctx):
                 return rc != 0 or any("!ORACLE" in l for l in io)
             mo2, _, _ = ctx.run_lines(drv, ["reset"] + cand)
             return io != mo2
-        small = ctx.shrink(case[:li + 1], still)
+        small = ctx.shrink(case if oracle else case[:li + 1], still)
         io, rc, err = ctx.run_lines(exe, ["reset"] + small)
         mo2, _, _ = ctx.run_lines(drv, ["reset"] + small)
         text = "%s\n# implementation output:\n%s\n# model output:\n%s\n%s" % (
@@ -252,8 +271,6 @@ def run(ctx):
         else:
             dist["divergences"] += 1
             ctx.broke("correspondence", "E-SEQ c06", "first difference at op %r: impl %r, model %r; minimised case:\n%s" % (op, a, b, text))
-        if dist["oracle_failures"] + dist["divergences"] >= 6:
-            break
     if ncorp:
         ctx.notes.append("corpus cases run first: %d" % ncorp)
     excluded_point(ctx, exe, drv)
